@@ -28,7 +28,7 @@ CLAIMED = {
              "exactly the accepted messages; DEALER's pending queue in front of the pipe: for every interleaving of sends, the processor's "
              "pops and (failed or successful) hand-over attempts and the session's takes, wire ++ pipe ++ processor's hand ++ queue = "
              "the acceptance log, so nothing overtakes (two counterexample theorems for the earlier shapes: a send that ignored the "
-             "backlog, a re-queue at the back). 21 theorems. Partial: the DEALER model is tied by translator flags and the streaming "
+             "backlog, a re-queue at the back). 22 theorems. Partial: the DEALER model is tied by translator flags and the streaming "
              "scenarios (no lock-step run: the processor is a timing-driven task); the load balancer across several peers, the ROUTER "
              "map, the inproc path and the io_uring backend are exercised by the streaming scenarios only; liveness (everything "
              "accepted is eventually written) is observed, not proved.",
@@ -228,15 +228,17 @@ CLAIMED = {
         engine="M6 Routing + M7 Lifecycle",
         technique="Lean 4 arithmetic theorems for both back-off schedules over all (RECONNECT_IVL, RECONNECT_IVL_MAX, attempt); decision-table "
                   "theorem for event handling with the shutdown-triggering arms re-extracted from source; tie: translator + correspondence "
-                  "on ReconnectState + stack-level fault-injection scenarios",
+                  "on ReconnectState + stack-level fault-injection, bystander and retry-pace scenarios",
         text="Proof: the core's delay starts at RECONNECT_IVL (or the cap), never more than doubles, is monotone, never exceeds "
              "RECONNECT_IVL_MAX when set, cannot overflow, saturates at 2^31; the connecter's own schedule is capped for every attempt "
              "(fixed in a21453b) and hands over consistently; a socket shuts itself down only on events about itself — a failed/refused "
-             "connection of any kind, another socket closing or a refused inproc connector (fixed in b9fdf8d) leave it running. 16 "
-             "theorems. Partial: the event-handling model is a decision table whose arms are re-extracted by pattern matching; resumption of "
+             "connection of any kind, another socket closing or a refused inproc connector (fixed in b9fdf8d) leave it running; the delay "
+             "between two attempts is waited out in full whatever events of other sockets arrive meanwhile (the earlier shape, where any "
+             "event ended the wait, is a counterexample theorem). 18 theorems. Partial: the event-handling model is a decision table whose arms are re-extracted by pattern matching; resumption of "
              "traffic after a peer returns is observed at stack level only; a lagging event-bus receiver does shut a socket down (theorem "
              "bus_lag_shuts_down; suspected defect, not reproduced on the real code).",
-        note=COMMON_NOTE + "Fault injection covers wrong socket type (inproc/tcp/ipc), garbage, reset, half greeting, oversized frame on a second connection.",
+        note=COMMON_NOTE + "Fault injection covers wrong socket type (inproc/tcp/ipc), garbage, reset, half greeting, oversized frame on a second connection; "
+                           "other sockets of the context closing / failing / being created while a connecter waits.",
         design="§8 C17"),
     "C12": dict(
         engine="M6 Routing",
@@ -244,8 +246,7 @@ CLAIMED = {
                   "(structural induction over topic and history); tie: lock-step correspondence on the real SubscriptionTrie + multiset oracle",
         text="Proof, full strength for the matcher: after any history of subscribe/unsubscribe over arbitrary byte strings, matches(t) holds "
              "iff some active subscription is a byte-prefix of t; N subscribes need N unsubscribes; unsubscribing an absent topic is a "
-             "no-op; the empty topic matches everything; get_all_topics lists exactly the active topics once. the delay between two attempts is waited out in full whatever events of other sockets arrive meanwhile (the earlier shape, "
-             "where any event ended the wait, is a counterexample theorem). 18 theorems. Partial with "
+             "no-op; the empty topic matches everything; get_all_topics lists exactly the active topics once. 10 theorems. Partial with "
              "respect to the whole property: filter-on-first-frame glue, per-publisher ordering (C01/C08) and the non-blocking publisher are "
              "not yet covered by theorems here; concurrent match-while-modify only at lock granularity.",
         text_extra=" KNOWN FINDING C12:pub-blocks-on-stalled-subscriber (the publisher is blocked by a subscriber that stops reading once SNDHWM is reached; a pinned stress test relies on that back-pressure), witnessed by the `pubstall` scenario on every run.",
@@ -257,7 +258,7 @@ CLAIMED = {
                   "tie: lock-step correspondence on the real LoadBalancer + round-robin oracle",
         text="Proof for the rotation: every reachable balancer state satisfies the representation invariant; k consecutive selections return "
              "the peers in cyclic list order; each peer is selected exactly once per round (no starvation); adding never changes who is "
-             "next and is idempotent; removing never skips or repeats a peer; a removed peer is never selected. 14 theorems. Partial: the "
+             "next and is idempotent; removing never skips or repeats a peer; a removed peer is never selected. 13 theorems. Partial: the "
              "readiness-aware sweep of the orchestrator (skip full peers, exactly-one placement) and the wait-for-first-peer wake-up are "
              "not yet covered by theorems here.",
         note=COMMON_NOTE,
@@ -270,7 +271,7 @@ CLAIMED = {
         text="Proof over the engine model: for all read sequences from the initial state, HandshakeComplete implies a locally enabled, "
              "non-NULL mechanism was negotiated and (PLAIN server) a HELLO with exactly the configured credentials was accepted, "
              "(PLAIN client) a WELCOME was received, (CURVE/NOISE) the mechanism itself reported ready on exactly the accepted tokens; "
-             "no delivery precedes HandshakeComplete; a secured engine never becomes a ZMTP/2.0 session. 9 theorems. Partial with respect to "
+             "no delivery precedes HandshakeComplete; a secured engine never becomes a ZMTP/2.0 session. 11 theorems. Partial with respect to "
              "the full property: the cryptographic soundness of CURVE/Noise_XX (snow/dryoc, and rzmq's home-grown CURVE key schedule) is a "
              "parameter of the theorems, not proved.",
         note=COMMON_NOTE + "The engine model is hand-written; it is compared with the real engine on ~1.5k/40k attacker streams per run. "
